@@ -37,7 +37,7 @@ func init() {
 			"just before, at and after each 8-byte chunk boundary; CountPrefixes on strictly ascending keyzoo sets of 2..40 keys x ALL sub-ranges [s,e) with e-s >= 2 (sets <= 8 keys) or sampled x m in {1,2,3,8,9,17,64,200}, " +
 			"against explicitly built sets of truncated bit strings. Non-trivial+distinct = hash of (a,b) pairs with a != b; hash of (keys, s, e, m).",
 		Assumptions: []string{"non-empty key lists; CountPrefixes only on strictly ascending keys, e-s >= 2, m >= 1"},
-		Flavours:    releaseOnly,
+		Flavours:    releaseThenGo126,
 		Required: []string{"fd/equal", "fd/byte-prefix", "fd/nul-padding-twin", "fd/diff-in-chunk-0", "fd/diff-in-chunk-1", "fd/diff-in-chunk-2", "fd/diff-at-chunk-boundary", "fd/empty-key", "fd/single-key-list",
 			"cp/s>0", "cp/m=1", "cp/m>=64", "cp/key-shorter-than-prefix", "cp/all-subranges"},
 		Families: func(c *mon.Config) []mon.Family {
